@@ -102,7 +102,8 @@ BOUNDS = {
              'operations on 4 logical qudits), circuits of exactly 1-3 operations from the menu in the obligation '
              'name (1: 1-qudit, 2: 2-qudit ordered, 3: 3-qudit ordered, 4/7: barriers, 5/6: CircuitGate blocks), '
              '12 parameter configurations per input (3 placement passes x {total_passes 1/2, extended set 0/1/20, '
-             'decay 0/0.001/0.5} + routing without layout). Escape path: one gate on the 4-line, 24 symbolic swap '
+             'decay 0/0.001/0.5} + routing without layout + two configurations that start from NON-identity recorded initial/final '
+             'mappings, which mapping must compose with). Escape path: one gate on the 4-line, 24 symbolic swap '
              'choices (first 6 pinned; 13 pinned for the 3-qudit gate) in routing-forward and layout-backward. '
              'PAM: n<=4, m<=4, 2-3 operations with sorted locations, 6 configurations, all (pre,post) pairs on all '
              'connected local graphs; PAM escape with 6 pinned choices',
